@@ -29,6 +29,11 @@ func inventoryFuncs(c *Ctx) []*ssa.Function {
 	var out []*ssa.Function
 	seen := map[*ssa.Function]bool{}
 	add := func(fn *ssa.Function) {
+		// SigEthereum only propagates encoding errors; what it must do is decided by C16 ETH-1, and a
+		// non-mutating rewrite legitimately drops its last error path
+		if fn.Name() == "SigEthereum" {
+			return
+		}
 		withAnon(fn, func(f *ssa.Function) {
 			if !seen[f] {
 				seen[f] = true
@@ -550,12 +555,14 @@ func runC03(c *Ctx, r *Run) {
 		r.Unresolved("OB-H", "verifyBroadcastMessage")
 	}
 
+	// ---- OB-H (cont.): one message per slot - a second, different copy must not overwrite per-sender round state
+	checkFirstCopyWins(c, r, "OB-H")
 	r.Require("OB-G1", 25)
 	r.Require("OB-G2", 5)
 	r.Require("OB-G3", 8)
 	r.Require("OB-T", 150)
 	r.Require("OB-R", 4)
-	r.Require("OB-H", 5)
+	r.Require("OB-H", 7)
 }
 
 func returnsBool(f *types.Func) bool {
